@@ -30,9 +30,10 @@ def proj(cb, knobs):
           "qs": [[int(bool(q.built)), int(isinstance(q.qnoise_factor, tf.Variable)), r20(qval(q))] for q in knobs]}
 
 
-def build_model(kind):
-  """kind 'functional': quantizers are built (float-backed) by model construction; 'deferred': not built yet."""
-  d = QDense(2, kernel_quantizer=Q.quantized_bits(4, 0, 1), bias_quantizer=Q.ternary(), name="d")
+def build_model(kind, f0=1.0):
+  """kind 'functional': quantizers are built (float-backed) by model construction; 'deferred': not built yet.
+  f0: the noise factor the kernel quantizer is constructed with (0.0 = pre-trained without quantization noise)."""
+  d = QDense(2, kernel_quantizer=Q.quantized_bits(4, 0, 1, qnoise_factor=f0), bias_quantizer=Q.ternary(), name="d")
   a = QActivation("quantized_relu(4,1)", name="a")
   if kind == "functional":
     i = tf.keras.layers.Input((3,))
@@ -50,7 +51,7 @@ def sched_replay(behaviours, events, shard=0, nshards=1):
       continue
     sp = b["sp"]
     built0 = [q["built"] for q in b["q0"]]
-    m, knobs = build_model("deferred")
+    m, knobs = build_model("deferred", 0.0 if t % 3 == 1 else 1.0)
     if built0[0]:
       # first knob quantizer already built and float-backed: it was called before training
       knobs[0](tf.constant(f32([0.1, 0.2])))
@@ -116,7 +117,7 @@ def fit_runs(seed, n, events, t0, shard=0, nshards=1):
           "type": rnd.choice(["step", "epoch"]), "init": rnd.randint(0, 2)}
     sp["finish"] = sp["start"] + rnd.randint(0, 4)
     kind = rnd.choice(["functional", "deferred"])
-    m, knobs = build_model(kind)
+    m, knobs = build_model(kind, 0.0 if j % 2 == 1 else 1.0)
     m.compile(optimizer="sgd", loss="mse")
     tid = t0 + j
     cb = Recording(events, tid, knobs, start=sp["start"], finish=sp["finish"], freq_type=sp["type"],
@@ -200,6 +201,14 @@ def main():
   behaviours = json.load(open(bpath))
   events = []
   if mode == "sched":
+    if shard == 0:
+      # long schedules (integer arithmetic must not wrap): the factor at increasing steps
+      for j, (start, finish, e) in enumerate([(0, 100000, 5), (10, 70000, 4), (1000, 3000000, 3), (5, 9000, 5)]):
+        cb = QNoiseScheduler(start=start, finish=finish, freq_type="step", update_freq=1, exponent=e)
+        steps = sorted({0, start, start + 1, (start + finish) // 7, (start + finish) // 3, (start + finish) // 2,
+                        finish - finish // 10, finish - 1, finish, finish + 5})
+        fs = [r20(cb.calculate_qnoise_factor(st_)) for st_ in steps if st_ <= start or True]
+        events.append({"t": 900000 + j, "a": "BigSchedule", "fs": fs})
     sched_replay(behaviours, events, shard, nshards)
     fit_runs(int(seed), 6 if tier == "quick" else 40, events, len(behaviours), shard, nshards)
   else:
